@@ -121,6 +121,7 @@ def plan_run(run_seed, prop):
     plan["gateset_stored"] = tp.chance(0.4)
     plan["header_first"] = tp.chance(0.15)
     plan["sibling"] = tp.chance(0.8)
+    plan["pulse_pkg"] = tp.choice([0, 1]) if (plan["pipeline"] in ("autoload", "run_string", "run_file") and tp.chance(0.4)) else None
     plan["inject_shifted"] = tp.sample(sorted(k for k in GS.SIGS if GS.has_unitary(k) and "f" in GS.SIGS[k]), tp.randint(1, 3)) if (plan["pipeline"] == "autoload" and tp.chance(0.6)) else None
     if many:
         plan.update(many_shots=many, pipeline="plain", disturb=None, scan=False, rerun=False, sampler_mode="faithful")
@@ -490,7 +491,11 @@ def execute(plan):
 
     st = Streams(plan["run_seed"], recorded=plan.get("tapes"))
     GS.VARIANT = plan.get("gateset_variant", 0)
-    GS.REF_SHIFT = {k: 1 for k in (plan.get("inject_shifted") or [])} if plan.get("pipeline") == "autoload" else {}
+    GS.REF_SHIFT = {}
+    if plan.get("pulse_pkg") and plan.get("pipeline") in ("autoload", "run_string", "run_file"):
+        GS.REF_SHIFT = {k: plan["pulse_pkg"] for k in GS.SIGS}
+    if plan.get("pipeline") == "autoload":
+        GS.REF_SHIFT.update({k: 1 for k in (plan.get("inject_shifted") or [])})
     viol = V()
     probes = {}
     log = []
@@ -532,7 +537,21 @@ def execute(plan):
 
         scratch = tempfile.mkdtemp(prefix="jaqsim-e2-")
         modname = "simgates_%x" % (plan["run_seed"] & 0xFFFFFFFF)
-        with open(os.path.join(scratch, modname + ".py"), "w") as f:
+        if plan.get("pulse_pkg") is not None:
+            # a gate *package* of the same name in every run's own import directory; its
+            # jaqal_gates module takes the matrix convention from a helper submodule (what
+            # an earlier program loaded under that name must not leak into this one)
+            modname = "simgates_pkg"
+            os.makedirs(os.path.join(scratch, modname))
+            with open(os.path.join(scratch, modname, "__init__.py"), "w") as f:
+                f.write("")
+            with open(os.path.join(scratch, modname, "convention.py"), "w") as f:
+                f.write("SHIFT = %d\n" % plan["pulse_pkg"])
+            with open(os.path.join(scratch, modname, "jaqal_gates.py"), "w") as f:
+                f.write("import sys\nif %r not in sys.path:\n    sys.path.append(%r)\nfrom sim import gateset as _gs\nfrom .convention import SHIFT\nALL_GATES = _gs.build_gateset(shift=SHIFT)\n" % (seams.VERIF_DIR, seams.VERIF_DIR))
+            probe("pipeline_pulse_package")
+        else:
+          with open(os.path.join(scratch, modname + ".py"), "w") as f:
             f.write(GS.PULSE_MODULE_SOURCE.format(verif=seams.VERIF_DIR, modname=modname, pre="", post=""))
         prog = dict(prog, pulses="." + modname)
         probe("pipeline_pulse_module")
@@ -894,6 +913,9 @@ def execute(plan):
         "mixed": encode_outputs(vals, n, "mixed", hw),
         "np": encode_outputs(vals, n, "np", hw),
     }
+    if n == 1:
+        # one qubit: the outcome as a Python bool (True == 1 is an integer outcome)
+        enc_lists["bool"] = [bool(v) for v in vals]
     hist = {}
     # (without definitions an idle gate is a gate like any other and counts as using its
     # qubits, so a program that is valid because a parallel branch only idles is not)
@@ -911,7 +933,7 @@ def execute(plan):
             msg = "parse without pulse definitions: %s: %s" % (oN["kind"], oN.get("exc"))
             viol.add("C08", "output_list_runs", oN["kind"], oN.get("where", ""), msg)
     for tag in [t for t in ("A", "B", "N") if t in circuits and circuits[t] is not None]:
-        encs = ("int", "str", "mixed", "np") if tag == "A" else (plan["hw_encoding"],)
+        encs = (("int", "str", "mixed", "np") + (("bool",) if "bool" in enc_lists else ())) if tag == "A" else (plan["hw_encoding"],)
         if plan.get("many_shots"):
             encs = (plan["hw_encoding"],)
         for enc in encs:
@@ -976,6 +998,8 @@ def execute(plan):
             viol.add("C15", "hardware_encodings_agree", "mismatch", "A")
         elif ("A", "np") in hist and hist[("A", "np")] != hist[("A", "int")]:
             viol.add("C15", "hardware_encodings_agree", "mismatch", "A", "numpy integer scalars are read differently from (or rejected, unlike) the equal Python integers")
+        elif ("A", "bool") in hist and hist[("A", "bool")] != hist[("A", "int")]:
+            viol.add("C15", "hardware_encodings_agree", "mismatch", "A", "True / False are read differently from (or rejected, unlike) the integers 1 / 0")
 
     # --- C09
     if has_sub and "B" in results:
@@ -1039,7 +1063,10 @@ def execute(plan):
         import shutil, sys
 
         shutil.rmtree(scratch, ignore_errors=True)
-        sys.modules.pop(modname, None)
+        if plan.get("pulse_pkg") is None:
+            sys.modules.pop(modname, None)
+        # (the package stays loaded, as it would in a user's process: the next program that
+        # names it from another directory must get its own)
     digest = hexdigest(log)
     plan = dict(plan)
     plan["tapes"] = st.dump()
